@@ -253,6 +253,7 @@ pub fn run(ctx: &Ctx) -> Report {
         (p4(ctx.pick(12, 40), false), true),
         (p5_full(), false),
         (p_guard_args(), false),
+        (p_guard_then_op(), false),
         (p5_thin(), true),
         (p_gc(), true),
         (p_vectors(ctx.pick(2, 8)), false),
